@@ -73,11 +73,12 @@ End IncS.
 (* the zone-file instance: the budget of a file is its unread octets + 1 *)
 From QV Require Import Model.ZfParser.
 
-Definition full_size (p : parser) : nat := S (length (r_rest (ps_rd p))).
+Definition full_size (s : fparser) : nat :=
+  match s with FP p => S (length (r_rest (ps_rd p))) | FUnreadable _ => 1 end.
 
-Definition full_expand (fs : path -> option bytes) :=
-  gexpand name name N N rr (pos * zkind) N parser bytes full_pnext full_pctx full_pwith full_pnew fs full_size.
+Definition full_expand (fs : path -> option fobj) :=
+  gexpand name name N N rr ferr N fparser fobj full_pnext full_pctx full_pwith full_pnew fs full_size.
 
-(* the whole run from the root file: Parser::open(p, max_depth) *)
-Definition full_expand_root (fs : path -> option bytes) (max_depth : nat) (p : path) (content : bytes) :=
-  full_expand fs max_depth [] p (S (full_size (parser_new content))) (parser_new content).
+(* the whole run from the root file: Parser::open(p, max_depth) on what the path names *)
+Definition full_expand_root (fs : path -> option fobj) (max_depth : nat) (p : path) (o : fobj) :=
+  full_expand fs max_depth [] p (S (full_size (full_root o))) (full_root o).
